@@ -253,6 +253,7 @@ class WritableVersion(dns.zone.WritableVersion):
         cursor = self.nodes.cursor()  # pyright: ignore
         cursor.seek(name, False)
         updates = []
+        exposed = None
         while True:
             elt = cursor.next()
             if elt is None:
@@ -260,6 +261,9 @@ class WritableVersion(dns.zone.WritableVersion):
             ename = elt.key()
             if not ename.is_subdomain(name):
                 break
+            if exposed is not None and ename.is_subdomain(exposed):
+                # still beneath a delegation that has just been exposed
+                continue
             node = cast(dns.node.Node, elt.value())
             if ename not in self.changed:
                 new_node = self.zone.node_factory()
@@ -269,9 +273,17 @@ class WritableVersion(dns.zone.WritableVersion):
                 node = new_node
             assert isinstance(node, Node)
             if is_glue:
-                node.flags |= NodeFlags.GLUE
+                # a delegation beneath the new delegation is now just glue
+                node.flags = NodeFlags.GLUE
+                self.delegations.discard(ename)
             else:
                 node.flags &= ~NodeFlags.GLUE
+                if node.get_rdataset(self.zone.rdclass, dns.rdatatype.NS) is not None:
+                    # an NS owner that was hidden by the removed delegation
+                    # becomes a delegation itself
+                    node.flags |= NodeFlags.DELEGATION
+                    self.delegations.add(ename)
+                    exposed = ename
             # We don't update node here as any insertion could disturb the
             # btree and invalidate our cursor.  We could use the cursor in a
             # with block and avoid this, but it would do a lot of parking and
